@@ -20,21 +20,24 @@ CoordClasses == {0, 1, -1, 5, -5, 150, 12345, -12345, 999999, 1000000, -999999, 
 
 Z3 == <<0, 0, 0>>
 At(ax, v) == [j \in 1..3 |-> IF j = ax THEN v ELSE 0]
-One(a, c, withIds) == [atoms |-> <<a>>, models |-> << <<c>> >>, ids |-> withIds, stack |-> FALSE, box |-> <<>>]
+One(a, c, withIds) == [atoms |-> <<a>>, models |-> << <<c>> >>, negz |-> <<>>, ids |-> withIds, stack |-> FALSE, box |-> <<>>]
 
 A2 == <<GBase, [resi |-> 2, resn |-> T("GLY"), name |-> T("N"), serial |-> 7]>>
 C2a == << <<0, 0, 0>>, <<150, 225, 300>> >>
 C2b == << <<-100, 50, 0>>, <<100, 50, 20>> >>
 C2c == << <<7, 7, 7>>, <<7, 7, 7>> >>                   \* zero extent: "no box" for this model only
 ModelSets == {<<C2a>>, <<C2c>>, <<C2a, C2b>>, <<C2c, C2a>>, <<C2c, C2c>>, <<C2a, C2b, C2c>>}
+Q(B) == [r \in 1..3 |-> [c \in 1..3 |-> 6250 * B[r][c]]]            \* sixteenths of a nm -> units of the box line
 Boxes == { <<>>,
-           << << <<16, 0, 0>>, <<0, 32, 0>>, <<0, 0, 48>> >> >>,          \* diagonal
-           << << <<16, 0, 0>>, <<8, 32, 0>>, <<-1, 2, 48>> >> >>,         \* triclinic
-           << << <<0, 32, 0>>, <<16, 0, 0>>, <<0, 0, 48>> >> >>,          \* orthogonal rows, not diagonal
-           << << <<16, 16, 0>>, <<-16, 16, 0>>, <<0, 0, 48>> >> >>,       \* rotated by 45 degrees
+           << Q(<< <<16, 0, 0>>, <<0, 32, 0>>, <<0, 0, 48>> >>) >>,          \* diagonal
+           << Q(<< <<16, 0, 0>>, <<8, 32, 0>>, <<-1, 2, 48>> >>) >>,         \* triclinic
+           << Q(<< <<16, 4, 2>>, <<8, 32, 6>>, <<-1, 3, 48>> >>) >>,         \* nine different components
+           << Q(<< <<0, 32, 0>>, <<16, 0, 0>>, <<0, 0, 48>> >>) >>,          \* orthogonal rows, not diagonal
+           << Q(<< <<16, 16, 0>>, <<-16, 16, 0>>, <<0, 0, 48>> >>) >>,       \* rotated by 45 degrees
            << Zero3x3 >>,
-           << << <<16000, 0, 0>>, <<0, 1, 0>>, <<0, 0, 161>> >> >> }      \* 1000 nm: ten characters
-File(ms, st, bx, withIds) == [atoms |-> A2, models |-> ms, ids |-> withIds, stack |-> st, box |-> bx]
+           << << <<10000, 0, 0>>, <<0, 123457, 0>>, <<0, 0, 999999>> >> >>,  \* decimal values: 0.1 nm, 1.23457 nm
+           << Q(<< <<16000, 0, 0>>, <<0, 1, 0>>, <<0, 0, 161>> >>) >> }      \* 1000 nm: ten characters
+File(ms, st, bx, withIds) == [atoms |-> A2, models |-> ms, negz |-> <<>>, ids |-> withIds, stack |-> st, box |-> bx]
 
 Inputs ==
        {One([GBase EXCEPT !.resi = v], Z3, FALSE) : v \in IdClasses}
@@ -43,21 +46,45 @@ Inputs ==
   \cup {One(GBase, At(ax, v), FALSE) : ax \in 1..3, v \in CoordClasses}
   \cup {File(ms, st, bx, i) : ms \in ModelSets, st \in {TRUE}, bx \in Boxes, i \in {FALSE}}
   \cup {File(ms, FALSE, bx, TRUE) : ms \in {<<C2a>>, <<C2c>>}, bx \in Boxes}
+  \cup {[One(GBase, <<0, 0, -5>>, FALSE) EXCEPT !.negz = nz] : nz \in {<< <<1, 1, 1>> >>, << <<1, 1, 2>>, <<1, 1, 3>> >>}}
+  \cup {[File(<<C2a, C2b>>, TRUE, <<>>, FALSE) EXCEPT !.negz = << <<1, 1, 1>>, <<2, 1, 3>>, <<2, 2, 3>> >>]}
   \cup (IF Rich
           THEN {One([GBase EXCEPT !.resi = r, !.serial = s], Z3, TRUE) : r \in IdClasses, s \in IdClasses}
                \cup {One(GBase, <<x, y, z>>, FALSE) : x \in CoordClasses, y \in CoordClasses, z \in {0, -999999, 9999000, 10000000}}
                \cup {File(ms, TRUE, bx, TRUE) : ms \in ModelSets, bx \in Boxes}
           ELSE {})
 
-Pending == [oc |-> "pending", lines |-> <<>>, kb |-> {}, dom |-> FALSE, count |-> 0, back |-> GroRejected, sel |-> <<>>]
+(* files made of several written files, one after the other (models of equal / unequal length) *)
+F1(c) == One(GBase, c, FALSE)
+F2(ms) == File(ms, FALSE, <<>>, FALSE)
+CatInputs == { <<F2(<<C2a>>), F2(<<C2b>>)>>, <<F2(<<C2a>>), F1(<<5, 5, 5>>)>>, <<F1(<<5, 5, 5>>), F2(<<C2a>>)>>,
+               <<F1(Z3), F1(<<1, 2, 3>>), F1(<<-1, -2, -3>>)>>, <<F2(<<C2a>>), F2(<<C2b>>), F1(Z3)>>,
+               <<File(<<C2a, C2b>>, TRUE, <<>>, FALSE), F2(<<C2c>>)>> }
+GroCat(parts) == Flat([k \in 1..Len(parts) |-> WriteGro(parts[k]).lines])
+GroCatExpect(parts) ==
+  Bind(GroCat(parts), LAMBDA ls :
+    [lines |-> ls, all |-> ReadGro(ls, <<>>), kb |-> IF KB_GroUnequal(ls) THEN {"GroUnequal"} ELSE {}])
 
-Init == inp \in Inputs /\ out = Pending /\ done = FALSE
-Next == ~done /\ done' = TRUE /\ out' = GroExpect(inp) /\ UNCHANGED inp
+AllInputs ==
+       {[kind |-> "w", S |-> x, parts |-> <<>>] : x \in Inputs}
+  \cup {[kind |-> "cat", S |-> F1(Z3), parts |-> p] : p \in CatInputs}
+
+Init == inp \in AllInputs /\ out = <<>> /\ done = FALSE
+Next == /\ ~done /\ done' = TRUE /\ UNCHANGED inp
+        /\ out' = IF inp.kind = "w" THEN GroExpect(inp.S) ELSE GroCatExpect(inp.parts)
 Spec == Init /\ [][Next]_vars
 
-InvDomain == Dom_Gro(inp)
-InvRoundTrip == done => GroRoundTripOK(inp, out)
-InvColumns == done => GroColumnsOK(inp, out)
-InvFraming == done => GroFramingOK(inp, out)
-InvAcceptance == done => GroAcceptanceOK(inp, out)
+IsW == done /\ inp.kind = "w"
+InvDomain == inp.kind = "w" => Dom_Gro(inp.S)
+InvRoundTrip == IsW => GroRoundTripOK(inp.S, out)
+InvColumns == IsW => GroColumnsOK(inp.S, out)
+InvFraming == IsW => GroFramingOK(inp.S, out)
+InvAcceptance == IsW => GroAcceptanceOK(inp.S, out)
+(* several files in a row are the models of one file iff they have the same number of atoms *)
+InvCat == (done /\ inp.kind = "cat") =>
+  LET n == [k \in 1..Len(inp.parts) |-> GNAtoms(inp.parts[k]) ]
+      equal == \A k \in 1..Len(n) : n[k] = n[1]
+  IN /\ (out.all.oc = "ok" <=> equal)
+     /\ (out.all.oc = "ok" => out.all.nmodels = FoldLeft(LAMBDA a, k : a + GNModels(inp.parts[k]), 0, Idx(Len(inp.parts))))
+     /\ (out.kb # {} => ~equal)
 =============================================================================
